@@ -165,6 +165,11 @@ func (cfg *Config) paramExp(pe *syntax.ParamExp) (string, error) {
 			strs = vr.indexedKeys()
 		case pe.Index != nil && vr.Kind == Associative:
 			strs = slices.Sorted(maps.Keys(vr.Map))
+		case pe.Index != nil && !vr.IsSet() && (nodeLit(index) == "@" || nodeLit(index) == "*"):
+			// ${!unset[@]} lists the keys of an unset array: there are none.
+		case pe.Index != nil && vr.Kind == String && (nodeLit(index) == "@" || nodeLit(index) == "*"):
+			// ${!scalar[@]}: a scalar behaves like an array with the single key 0.
+			strs = append(strs, "0")
 		case !vr.IsSet():
 			return "", fmt.Errorf("invalid indirect expansion")
 		case str == "":
